@@ -92,12 +92,12 @@ DurationNonRedundant(tokens) ==
       ph == HasTok(tokens, {"h", "hh"})  pm == HasTok(tokens, {"m", "mm"})  ps == HasTok(tokens, {"s", "ss"})
   IN  /\ (IF d THEN 1 ELSE 0) + (IF tH THEN 1 ELSE 0) + (IF tM THEN 1 ELSE 0) + (IF tS THEN 1 ELSE 0) <= 1
       /\ ~(tH /\ ph) /\ ~(tM /\ (pm \/ ph)) /\ ~(tS /\ (ps \/ pm \/ ph))
-DurationVocab == {"D", "DD", "H", "HH", "h", "hh", "M", "MM", "m", "mm", "S", "SS", "s", "ss", "+", "-", ":", ".", " ", "'d'",
+DurationVocab == {"D", "DD", "H", "HH", "h", "hh", "M", "MM", "m", "mm", "S", "SS", "s", "ss", "+", "-", ":", ".", " ", "'d'", "'.'", "\\.",
                   "fff", "ffffff", "fffffffff", "FFF", "FFFFFFFFF", ".fff", ".FFF", ".FFFFFFFFF"}
 
 \* tokens outside the vocabulary the spec gives a meaning to make no round-trip promise
 Understood(tokens, vocab) == \A i \in 1..Len(tokens) : tokens[i] \in vocab
-TimeVocab == {"H", "HH", "h", "hh", "m", "mm", "s", "ss", "t", "tt", ":", ".", " ", "'at'", "\\h", "-", "/", "'T'", ","}
+TimeVocab == {"H", "HH", "h", "hh", "m", "mm", "s", "ss", "t", "tt", ":", ".", " ", "'at'", "\\h", "-", "/", "'T'", ",", "'.'", "\\."}
              \cup {x \in {"f", "ff", "fff", "ffffff", "fffffffff", "F", "FFF", "FFFFFFFFF", ".fff", ".FFF", ";fff", ";FFFFFFFFF", ";FFF"} : TRUE}
 OffsetVocab == {"+", "-", "H", "HH", "m", "mm", "s", "ss", ":", "'x'", "\\:", " "}
 DateVocab == {"yyyy", "uuuu", "uuu", "uu", "u", "M", "MM", "MMM", "MMMM", "d", "dd", "ddd", "dddd", "g", "gg", "c", "/", "-", " ", "'of'", ",", "\\d", "'T'", ":", "."}
@@ -110,7 +110,7 @@ OptFrac == {"F", "FFF", "FFFFFFFFF", ".FFF", ";FFF", ";FFFFFFFFF", ".F", ";F", "
 Delimited(tokens) ==
   /\ \A i \in 1..(Len(tokens) - 1) : ~(tokens[i] \in Numeric /\ tokens[i + 1] \in Numeric)
   /\ \A i \in 1..(Len(tokens) - 1) : tokens[i] \in OptFrac =>
-        tokens[i + 1] \notin (Numeric \cup {".", ",", ";", ".fff", ";fff", ".FFF", ";FFF", ";FFFFFFFFF"})
+        tokens[i + 1] \notin (Numeric \cup {".", ",", ";", ".fff", ";fff", ".FFF", ";FFF", ";FFFFFFFFF", "'.'", "\\."})
   /\ \A i \in 2..Len(tokens) : tokens[i] \in {"F", "FFF", "FFFFFFFFF", "f", "ff", "fff", "ffffff", "fffffffff"} => tokens[i - 1] \notin Numeric
   /\ \A i \in 1..(Len(tokens) - 1) : FracDigits(tokens[i]) > 0 => tokens[i + 1] \notin Numeric
 \* in offset patterns "-" is the negative-only sign: it prints nothing for non-negative values, so it delimits nothing
